@@ -1,5 +1,6 @@
 """C18 - the sorter leaves no spill files or descriptors behind, even when I/O fails."""
 import json
+import os
 import tempfile
 
 from .. import impl
@@ -582,6 +583,110 @@ def eval_lenient_writer(mode, records):
     return []
 
 
+def eval_writer_handle_closed_first(n, typed):
+    """The caller owns the handle and closes it BEFORE the sorting writer (with open(...) as fh: w = from_fd(fh, ...);
+    w += ...  -- then w.close() after the block).  Whatever close() does about the closed handle: if it returns normally
+    the file holds every record whose write returned normally, and afterwards nothing of the sorter is left behind."""
+    import glob
+    from maflib.header import MafHeader
+    from maflib.writer import MafWriter
+    from maflib.validation import ValidationStringency as VS
+    from .. import impl as _impl, sortcases as SC
+    where = {"kind": "handle-closed-first", "records": n, "typed": typed}
+    fails = []
+    with tempfile.TemporaryDirectory() as tmp, _impl.LogCapture():
+        saved = tempfile.tempdir
+        spill = os.path.join(tmp, "spill")
+        os.mkdir(spill)
+        tempfile.tempdir = spill
+        try:
+            path = os.path.join(tmp, "out.maf")
+            h = MafHeader.from_lines(["#version gdc-1.0.0"] + ([] if typed else ["#annotation.spec lab"]) + ["#sort.order Coordinate"], validation_stringency=VS.Silent)
+            with open(path, "w") as fh:
+                w = MafWriter.from_fd(fh, h, validation_stringency=VS.Silent, assume_sorted=False)
+                for k in range(n):
+                    w += (SC.typed_record(None, "T", "N", "1", n - k, n - k) if typed else SC.untyped_record("T", "N", "1", str(n - k), str(n - k)))
+            returned = False
+            for _attempt in range(2):
+                try:
+                    w.close()
+                    returned = True
+                    break
+                except Exception:  # noqa
+                    continue
+            if returned:
+                with open(path) as fh2:
+                    body = [l for l in fh2.read().split("\n") if l and not l.startswith("#")][1:]
+                if len(body) != n:
+                    fails.append(dict(where, what="the caller closed its handle before the sorting writer: close() returned normally but the file holds %d of the %d records whose write returned normally" % (len(body), n)))
+                left = glob.glob(spill + "/*")
+                if left:
+                    fails.append(dict(where, what="the caller closed its handle before the sorting writer: close() returned normally and left %d spill file(s) behind" % len(left)))
+        finally:
+            tempfile.tempdir = saved
+    return fails[:1]
+
+
+STDIN_CLOSED_SCRIPT = r"""
+import json, os, sys, tempfile
+sys.path.insert(0, sys.argv[1])
+from maflib.sorter import Sorter
+import struct
+class Codec:
+    def encode(self, o): return bytearray(json.dumps(o).encode())
+    def decode(self, d, s, l): return json.loads(bytes(d[s:s + l]).decode())
+tmp = tempfile.mkdtemp()
+s = Sorter(2, Codec(), lambda x: x, tmp_dir=tmp, always_spill=True)
+for k in (5, 3, 9, 1, 7):
+    s += k
+out = list(s)
+s.close()
+left = []
+for fd in os.listdir('/proc/self/fd'):
+    try:
+        t = os.readlink('/proc/self/fd/' + fd)
+    except OSError:
+        continue
+    if tmp in t:
+        left.append([int(fd), t])
+print(json.dumps({"sorted": out, "files": os.listdir(tmp), "fds": left}))
+"""
+
+
+def eval_stdin_closed():
+    """The same clean-up in a process that runs without standard input (a daemon, a cron job: descriptor 0 is free, so
+    the first spill file may get it): after close() no spill file and no descriptor on one is left."""
+    import subprocess
+    import sys
+    from ..common import REPO
+    where = {"kind": "stdin-closed"}
+    p = subprocess.run([sys.executable, "-c", STDIN_CLOSED_SCRIPT, REPO], stdout=subprocess.PIPE, stderr=subprocess.PIPE, text=True, timeout=120,
+                       preexec_fn=lambda: os.close(0))
+    try:
+        res = json.loads(p.stdout.strip().splitlines()[-1])
+    except Exception:  # noqa
+        return [dict(where, what="a sort in a process without standard input failed: %s" % (p.stderr.strip().splitlines() or ["no output"])[-1][:200])]
+    if res["sorted"] != [1, 3, 5, 7, 9]:
+        return [dict(where, what="a sort in a process without standard input returned %s" % res["sorted"])]
+    if res["files"] or res["fds"]:
+        return [dict(where, what="in a process without standard input, after close(): %d spill file(s) and %d descriptor(s) on spill files left behind (%s)" % (
+            len(res["files"]), len(res["fds"]), res["fds"][:2]))]
+    return []
+
+
+def handle_closed_first_cases(ctx, out):
+    out.evaluations += 1
+    out.failures += eval_stdin_closed()
+    out.distribution["sort in a process without standard input"] += 1
+    out.nontrivial.add(("stdin-closed",))
+    for n in ([1, 5] if ctx.tier == "quick" else [1, 5, 10003]):
+        for typed in (False, True):
+            out.evaluations += 1
+            out.failures += eval_writer_handle_closed_first(n, typed)
+            out.distribution["sorting writer whose handle the caller closed first"] += 1
+            out.nontrivial.add(("handle-closed-first", n, typed))
+
+
 def lenient_writer_cases(ctx, out):
     rng = ctx.rng("c18-lenient")
     bads = [["Strand", "?"], ["Entrez_Gene_Id", "n/a"], ["Variant_Type", "weird"], ["Reference_Allele", "acgu"], ["Tumor_Sample_UUID", "not-a-uuid"]]
@@ -691,6 +796,7 @@ def run(ctx):
     out.extra["fault_positions"] = len(fault_positions)
     out.extra["fault_position_samples"] = fault_positions[:8]
     lenient_writer_cases(ctx, out)
+    handle_closed_first_cases(ctx, out)
     return out
 
 
@@ -755,6 +861,18 @@ def _replay_plan(f):
 
 
 def replay_case(ctx, failure):
+    if failure.get("kind") == "stdin-closed":
+        fails = eval_stdin_closed()
+        print("replay C18: child interpreter started with descriptor 0 closed; Sorter(2, always_spill=True) += 5 items; list(sorter); close(); /proc/self/fd and the temp directory inspected")
+        for x in fails:
+            print("  oracle: %s" % x["what"])
+        return fails
+    if failure.get("kind") == "handle-closed-first" and "records" in failure:
+        fails = eval_writer_handle_closed_first(int(failure["records"]), bool(failure.get("typed")))
+        print("replay C18: with open(path, 'w') as fh: w = MafWriter.from_fd(fh, header declaring Coordinate, Silent, assume_sorted=False); %d records written; after the block w.close() (twice at most)" % int(failure["records"]))
+        for x in fails:
+            print("  oracle: %s" % x["what"])
+        return fails
     if failure.get("kind") == "lenient-writer" and "records" in failure:
         fails = eval_lenient_writer(failure["mode"], failure["records"])
         print("replay C18: a %s sorting MafWriter (gdc-1.0.0, sort.order Coordinate) offered %d scheme-less text record(s): %s" % (failure["mode"], len(failure["records"]), failure["records"]))
